@@ -107,7 +107,14 @@ func (r *recorder) fail() bool {
 	return r.faults[i]
 }
 
-func (r *recorder) rec(e entry) { e.Tid = r.tid; r.trace = append(r.trace, e) }
+func (r *recorder) rec(e entry) {
+	e.Tid = r.tid
+	r.trace = append(r.trace, e)
+	if len(r.trace) > 200000 {
+		// no request of the generated sizes makes this many calls: unbounded recursion / iteration in the library
+		panic("runaway: more than 20000 Database / Transport / callback calls in one request")
+	}
+}
 
 func deepCopy(m jmap) jmap {
 	if m == nil {
